@@ -31,6 +31,10 @@ pub mod verif_region;
 #[cfg(jxl_oxide_verif)]
 pub use vardct::verif as verif_vardct;
 
+/// Verification hooks H3/H4 (C08, C20): handle states, execution counters, scheduling points.
+#[cfg(jxl_oxide_verif)]
+pub mod verif;
+
 pub use error::{Error, Result};
 pub use features::render_spot_color;
 pub use image::{ImageBuffer, ImageWithRegion};
